@@ -131,19 +131,21 @@ theorem crash_loses_only_volatile (P : PStore) (V : PVol) (hb : BestInv P V) (hk
 
 /-- removal_resumes / import_resumes: whatever was marked in the store is queued again at boot -/
 theorem removal_resumes (env : Env) (n : Nat) (P : PStore) (w : Wid) (st : WStatus)
-    (hq : env.node.tipHeight = P.led.syncedTo) (h : (w, st) ∈ P.led.status) (hr : st.removed = true) :
+    (hq : env.node.tipHeight = P.led.syncedTo) (ht : tipOnB env P = true)
+    (h : (w, st) ∈ P.led.status) (hr : st.removed = true) :
     Task.rem w ∈ (start env n P (bootVol P)).V.tasks := by
-  rw [start_quiet env n P (bootVol P) hq]; exact requeue_removed P w st h hr
+  rw [start_quiet env n P hq ht]; exact requeue_removed P w st h hr
 
 theorem import_resumes (env : Env) (n : Nat) (P : PStore) (w : Wid) (st : WStatus)
-    (hq : env.node.tipHeight = P.led.syncedTo) (h : (w, st) ∈ P.led.status)
+    (hq : env.node.tipHeight = P.led.syncedTo) (ht : tipOnB env P = true) (h : (w, st) ∈ P.led.status)
     (hr : st.removed = false) (hi : st.synced.isSome = true) :
     Task.imp w ∈ (start env n P (bootVol P)).V.tasks := by
-  rw [start_quiet env n P (bootVol P) hq]; exact requeue_importing P w st h hr hi
+  rw [start_quiet env n P hq ht]; exact requeue_importing P w st h hr hi
 
 -- ------------------------------------------------------------------ catchup_converges
 
-/-- catchup_converges (partial): when no fast-forward applies, Start's catch-up IS the processing of
+/-- catchup_converges (partial): when no fast-forward applies and the synced block is still the node's block
+    at that height (nothing to resync), Start's catch-up IS the processing of
     the missed tip notifications in order — boot followed by catch-up reaches the store (and tip
     copy, key cache) that the run which never stopped reaches by processing those notifications.
     Partial: the missed blocks are processed as Start does (each extends the previous one or goes
@@ -151,6 +153,7 @@ theorem import_resumes (env : Env) (n : Nat) (P : PStore) (w : Wid) (st : WStatu
     (rollback + reconnect) is part of `crash_equiv_full`. -/
 theorem catchup_converges_partial (n : Nat) (s : Sys) (hb : BestInv s.P s.V) (hk : s.V.keys = s.P.ks)
     (hnf : (!(!(readyWallets s.P.led (walletsOf s.P.ks)).isEmpty) && decide (s.env.node.tipHeight > Gen.Updates.ffGap)) = false)
+    (ht : tipOnB s.env s.P = true) (hle : s.P.led.syncedTo ≤ s.env.node.tipHeight)
     (hok : (crash s.env n s.P).ok = true) :
     let missed := (pendingBlocks s.env (s.env.node.tipHeight + 1) (s.P.led.syncedTo + 1)).map Ev.block
     (crash s.env n s.P).P = (runEvs n false s missed).P ∧
@@ -158,7 +161,7 @@ theorem catchup_converges_partial (n : Nat) (s : Sys) (hb : BestInv s.P s.V) (hk
   intro missed
   have hnf' : (!(!(readyWallets s.P.led (walletsOf (bootVol s.P).keys)).isEmpty) && decide (s.env.node.tipHeight > Gen.Updates.ffGap)) = false := hnf
   unfold crash at hok ⊢
-  rw [start_noff s.env n s.P (bootVol s.P) hnf'] at hok ⊢
+  rw [start_noff s.env n s.P hnf' ht hle] at hok ⊢
   simp only at hok ⊢
   by_cases hc : (catchUp s.env n (s.env.node.tipHeight + 1) (s.P.led.syncedTo + 1) s.P (bootVol s.P) 0).ok = true
   · simp only [hc, Bool.not_true] at hok ⊢
@@ -208,8 +211,18 @@ theorem crash_preserves_J {e : Lemmas.Ledger.Env} {G : Block} {w : Lemmas.Ledger
     Lemmas.Ledger.J e G (Lemmas.PersistWorld.crashW w) :=
   Lemmas.PersistWorld.crashW_J hJ hN hf
 
+/-- with the resync step of Start (the repair of F2; `MW.Lemmas.PersistWorld.crashF`, `Model.Persist.resync`)
+    the exception is gone: a crash keeps `J` at EVERY commit boundary. The case "synced block is the
+    node's block at that height and nothing above it" needs the hash-chain property (`prefix_of_id`): the
+    wallet's chain then IS the node's chain. -/
+theorem crash_preserves_J_repaired {e : Lemmas.Ledger.Env} {G : Block} {w : Lemmas.Ledger.World}
+    (hJ : Lemmas.Ledger.J e G w) (hN : Lemmas.Ledger.ChainOK e G w.chain) :
+    Lemmas.Ledger.J e G (Lemmas.PersistWorld.crashF w) :=
+  Lemmas.PersistWorld.crashF_J hJ hN
+
 /-- crash_equiv over the histories of C01 (node extends / reorganises to any branch, handler steps in any
-    interleaving) with ANY number of crashes at ANY commit boundaries satisfying `freshAt`: whenever nothing
+    interleaving) with ANY number of crashes at ANY commit boundaries (event `crashF`: Start with the resync
+    step, no side condition; event `crash`: Start as it was, side condition `freshAt`): whenever nothing
     is queued, the crashing run holds the books of the node's chain with the tip at the node's tip … -/
 theorem crash_quiet_inv {e : Lemmas.Ledger.Env} {G : Block} (E : Lemmas.Ledger.EnvHyp e G)
     (evs : List Lemmas.PersistWorld.EvC) (w : Lemmas.Ledger.World)
@@ -251,10 +264,9 @@ example : Lemmas.Ledger.J Lemmas.Ledger.hxEnv Lemmas.Ledger.hxG Lemmas.Ledger.hx
         the fast-forward, on store × key cache) and `PersistWorld.crashW` followed by handler steps (on C01's
         world with a fixed keystore view) — `catchup_converges_partial` shows that Start's catch-up IS the
         handling of the blocks above synced-to, but the two state spaces are not formally related;
-    (2) the `freshAt` exception is REAL: after a crash with pending notifications where the node's chain is
-        not higher than the wallet's synced block (equal-height replacement, or a shorter node chain), Start's
-        catch-up loop is empty and the wallet stays on the stale branch until the next tip notification
-        (see notes/C06.md, F2);
+    (2) the `freshAt` exception WAS real (finding F2, repaired in the repository: Start now hands the node's
+        block at the highest common height to the follower when the synced block has left the node's
+        chain — `crash_preserves_J_repaired`);
     (3) histories with address issuance (C01's `WorldI`), imports and removals (`AllReady` fails) and
         unconfirmed transactions (the pending buckets are not functions of the chain).
     The statement below is (1)+(3) for the persistence model's own histories. -/
